@@ -15,6 +15,8 @@ Correspondence:
 Generator classes: random mixes; remove-then-clear-then-refill (run with the ASan quarantine off so that freed
 leaf buffers are reused, see REUSE_ENV).  A model/implementation disagreement aims a targeted search
 (disagreement_probes) for an observable failure before it is reported as `no-failing-input-found`.
+The harness reuses ONE result vector for all nearestK / nearestR calls (pre-filled with the previous answer or with
+sentinels), and scripts visit the early-out states (k = 0, empty structure) right after full answers.
 Callers: the real tools::SelfConfig::getDefaultNearestNeighbors (harness/nn_default.cpp, libompl) on spaces x planners
 vs the model defaultNN (default_selection); every kind=gnat history is also run through kind=gnatnts with the same
 seed and the two real variants must agree on results, size and list (variants_agree).
@@ -43,6 +45,7 @@ METRICS = {
 }
 KINDS = ["linear", "sqrt", "gnat", "gnatnts"]
 HUGE = 10 ** 9
+SENTINEL = (987654321, 987654321)     # what harness/nn.cpp pre-fills the reused result vector with
 
 
 def build(ck):
@@ -120,6 +123,14 @@ def gen_script(rng, kind, metric, prm, dname, nops, maxn=60):
     mfun = METRICS[metric][1]
     lines = [header(kind, metric, prm)]
     held = []                      # the generator's own idea of the contents (a hint only)
+
+    def empty_probe():
+        """queries on an empty structure / with k = 0: the (reused) result vector must come back empty"""
+        q0 = d.point()
+        return rng.choice([["nk %s 3" % ps(q0), "nr %s %d" % (ps(q0), HUGE)], ["nr %s %d" % (ps(q0), HUGE), "nk %s 1" % ps(q0)],
+                           ["nk %s 0" % ps(q0), "nk %s 2" % ps(q0)], ["nk %s 2" % ps(q0)]])
+    if rng.chance(1, 2):
+        lines += empty_probe()     # before the first add (the vector holds the sentinels)
     for _ in range(nops):
         r = rng.below(100)
         if len(held) >= maxn and r < 43:
@@ -143,8 +154,11 @@ def gen_script(rng, kind, metric, prm, dname, nops, maxn=60):
                     held.remove(p)
             lines.append("rm " + ps(p))
         elif r < 65:
+            if held and rng.chance(1, 2):          # a non-empty answer first, so that the vector is full
+                lines.append("nk %s %d" % (ps(d.point()), len(held) + 1))
             lines.append("clear")
             held = []
+            lines += empty_probe()
         else:
             q = rng.choice(held) if held and rng.chance(1, 3) else d.point()
             if r < 73:
@@ -152,6 +166,8 @@ def gen_script(rng, kind, metric, prm, dname, nops, maxn=60):
             elif r < 85:
                 n = len(held)
                 k = rng.choice([0, 1, 2, n, n + 1, n + 2, rng.below(n + 3), rng.below(n + 3)])
+                if k == 0 and n:                   # k = 0 right after a non-empty answer
+                    lines.append("nk %s %d" % (ps(q), n))
                 lines.append("nk %s %d" % (ps(q), k))
             elif r < 95:
                 c = rng.below(6)
@@ -222,6 +238,39 @@ def gen_refill(rng, kind, metric, dname):
         lines.append("nst " + ps(victims[0] if victims else q))
         if rounds > 1:
             lines.append("clear")
+    return lines
+
+
+def gen_empty_states(rng, kind, metric, prm, dname):
+    """generator class *stale result vector*: the harness reuses one result vector for all queries, so a query
+    that does not clear / overwrite its output parameter returns entries of an earlier call.  Visits every state
+    in which the wrappers take an early-out path -- before the first add, k = 0, after clear(), after the last
+    element was removed -- each time right after a call that left a non-empty answer, and again right after."""
+    d = Dist(rng, metric, dname)
+    lines = [header(kind, metric, prm)]
+    q = d.point()
+    big = "nr %s %d" % (ps(q), HUGE)
+
+    def full(n):
+        return rng.choice(["nk %s %d" % (ps(q), n + 1), big])
+    lines += rng.choice([["nk %s 2" % ps(q), big], [big, "nk %s 1" % ps(q)], ["nk %s 0" % ps(q)]])     # before the first add
+    for _round in range(rng.range(1, 3)):
+        n = rng.range(1, 9)
+        pts = [d.point() for _ in range(n)]
+        lines += (["addv %d %s" % (n, " ".join(ps(p) for p in pts))] if rng.chance(1, 3) else ["add " + ps(p) for p in pts])
+        lines += [full(n), "nk %s 0" % ps(q), full(n), "nk %s 0" % ps(q), "nk %s 1" % ps(q)]
+        if rng.chance(1, 2):
+            lines += [full(n), "clear"]
+        else:                                   # remove everything, one by one
+            order = list(pts)
+            while order:
+                v = rng.choice(order)
+                order.remove(v)
+                if len(order) == 0:
+                    lines.append(full(1))
+                lines.append("rm " + ps(v))
+        lines += rng.choice([["nk %s 3" % ps(q), big], [big, "nk %s 2" % ps(q)], ["nst " + ps(q), big]])
+        lines += ["size", "list"]
     return lines
 
 
@@ -424,11 +473,13 @@ def oracle(script, out):
             elif op in ("nk", "nr"):
                 exp = None
                 ds, es = parse_answer(r, dim)
-                if [mfun(q, e) for e in es] != ds:
-                    raise Fail(i, "harness distance mismatch", "protocol")
+                # membership first: the reused result vector may still hold sentinels / an earlier answer
                 extra = collections.Counter(es) - M
                 if extra:
-                    raise Fail(i, "%s returned %s which is not (or not that often) a current member" % (op, sorted(extra.elements())[:3]), "member")
+                    stale = " (the result vector still holds entries of an earlier call)" if (SENTINEL[:dim] in extra or not M) else ""
+                    raise Fail(i, "%s returned %s which is not (or not that often) a current member%s" % (op, sorted(extra.elements())[:3], stale), "member")
+                if [mfun(q, e) for e in es] != ds:
+                    raise Fail(i, "harness distance mismatch", "protocol")
                 if any(ds[a] > ds[a + 1] for a in range(len(ds) - 1)):
                     raise Fail(i, "%s answer not in non-decreasing distance order: %s" % (op, ds))
                 if op == "nk":
@@ -949,6 +1000,13 @@ def run(ck):
         for j in range(nref):
             r = ck.rng.fork("refill-%s-%d" % (kind, j))
             jobs.append((gen_refill(r, kind, metrics[j % 4], dnames[(j // 4) % 4]), "refill"))
+    # generator class stale-result-vector (all four structures)
+    nemp = 12 if ck.tier == "quick" else 120
+    for kind in KINDS:
+        for j in range(nemp):
+            r = ck.rng.fork("empty-%s-%d" % (kind, j))
+            prm = gen_params(r, safe=True) if kind.startswith("gnat") else None
+            jobs.append((gen_empty_states(r, kind, metrics[j % 4], prm, dnames[(j // 4) % 4]), "empty-states"))
     idx = 0
     for kind in KINDS:
         reps = nper * (3 if kind.startswith("gnat") else 1)
